@@ -21,6 +21,7 @@ verus! {
 //@include spec/sem_arms.rs
 //@include spec/evalctx_types.rs
 //@include spec/strmap.rs
+//@include spec/canon.rs
 //@include spec/evalctx.rs
 //@include spec/size.rs
 //@include spec/mark.rs
@@ -33,7 +34,7 @@ verus! {
 #[verifier::external] impl Eq for NodeWithDomains<'_> {}
 #[verifier::external] impl Ord for NodeWithDomains<'_> { fn cmp(&self, other: &Self) -> Ordering { self.subtree.height.cmp(&other.subtree.height) } }
 #[verifier::external] impl PartialOrd for NodeWithDomains<'_> { fn partial_cmp(&self, other: &Self) -> Option<Ordering> { Some(self.cmp(other)) } }
-//@trusted get_canonical_and_renaming
+//@assume get_canonical_and_renaming
 //@verify node_with_domains_new
 //@verify node_with_domains_new_empty
 //@verify mark_duplicates_canonized_multiple
